@@ -174,6 +174,7 @@ type outcome struct {
 	inconclusive string
 	notifyLag    int64   // ms between the agent's exit record and Close's return; -1 unknown
 	beats        []int64 // times of the agent's heartbeats
+	agentGap     bool    // the agent's heartbeats show that it was not scheduled on time
 }
 
 const (
@@ -226,7 +227,13 @@ func hostWasSlow(from, to int64) bool {
 	return false
 }
 
-func runCase(s spec, dir string, id int) (o outcome) {
+// runCase starts the agent, waits at the barrier until every agent of the batch
+// is up (`ready` is called once this one is, `start` is closed when all are),
+// then closes the stream. No process is created while any Close of the batch
+// is running: a fork in this process would briefly duplicate the write ends of
+// the other agents' input pipes (until its exec), which delays their
+// end-of-file by however long the host takes to schedule that exec.
+func runCase(s spec, dir string, id int, ready func(), start <-chan struct{}) (o outcome) {
 	jpath := filepath.Join(dir, fmt.Sprintf("agent-%d.journal", id))
 	os.Remove(jpath)
 	defer os.Remove(jpath)
@@ -250,6 +257,8 @@ func runCase(s spec, dir string, id int) (o outcome) {
 			break
 		}
 	}
+	ready()
+	<-start
 	o.goSent = nowMs()
 	stream.Write([]byte("go\n"))
 	if s.pre {
@@ -340,7 +349,7 @@ func runCase(s spec, dir string, id int) (o outcome) {
 	}
 	// the agent's heartbeats: was it scheduled on time between the start signal
 	// and the end of the case?
-	if g, ok := j["go"]; ok && o.inconclusive == "" {
+	if g, ok := j["go"]; ok {
 		last := g
 		end := o.close1
 		for _, k := range []string{"exit-self", "exit-eof", "exit-term"} {
@@ -356,11 +365,16 @@ func runCase(s spec, dir string, id int) (o outcome) {
 				t = end
 			}
 			if t-last > heartbeat+slowAgent {
-				o.inconclusive = fmt.Sprintf("agent heartbeat gap of %d ms", t-last)
+				o.agentGap = true
+				if o.inconclusive == "" {
+					o.inconclusive = fmt.Sprintf("agent heartbeat gap of %d ms", t-last)
+				}
 				break
 			}
 			last = t
 		}
+	} else {
+		o.agentGap = true
 	}
 	// the escalation timers themselves: how late did the stages begin?
 	if e, ok := j["eof"]; ok {
@@ -412,13 +426,17 @@ func judge(s spec, o outcome) string {
 	}
 	eofAt, sawEOF := o.journal["eof"]
 	termAt, sawTerm := o.journal["term"]
-	if sawTerm && !sawEOF && beatAfter(termAt) {
+	if o.agentGap {
+		// the agent itself was starved: its records say nothing about Close
+	} else if sawTerm && !sawEOF && beatAfter(termAt) {
 		return "class=escalation-skipped the agent received SIGTERM although its standard input was never closed"
 	}
-	if o.stage == "kill" && !sawTerm && sawEOF && beatAfter(eofAt+int64(s.g1)+2*slowAgent) {
+	if o.agentGap {
+	} else if o.stage == "kill" && !sawTerm && sawEOF && beatAfter(eofAt+int64(s.g1)+2*slowAgent) {
 		return "class=escalation-skipped the agent was killed without having received SIGTERM"
 	}
-	if o.stage == "kill" && !sawTerm && !sawEOF && beatAfter(o.close0+int64(s.delay+s.g1)+2*slowAgent) {
+	if o.agentGap {
+	} else if o.stage == "kill" && !sawTerm && !sawEOF && beatAfter(o.close0+int64(s.delay+s.g1)+2*slowAgent) {
 		return "class=escalation-skipped the agent was killed without its standard input having been closed"
 	}
 	want, exitAt := predict(s)
@@ -653,18 +671,22 @@ func main() {
 		// Agents mostly sleep: run many cases at once.
 		par := c.Size(24, 48)
 		outs := make([]outcome, len(specs))
-		var wg sync.WaitGroup
-		sem := make(chan struct{}, par)
-		for i, s := range specs {
-			wg.Add(1)
-			sem <- struct{}{}
-			go func() {
-				defer wg.Done()
-				outs[i] = runCase(s, dir, i)
-				<-sem
-			}()
+		for lo := 0; lo < len(specs); lo += par {
+			hi := min(lo+par, len(specs))
+			var up, wg sync.WaitGroup
+			start := make(chan struct{})
+			for i := lo; i < hi; i++ {
+				up.Add(1)
+				wg.Add(1)
+				go func() {
+					defer wg.Done()
+					outs[i] = runCase(specs[i], dir, i, up.Done, start)
+				}()
+			}
+			up.Wait()
+			close(start)
+			wg.Wait()
 		}
-		wg.Wait()
 		time.Sleep(2 * slowHost * time.Millisecond) // let the probe close a stall in progress
 		for i, s := range specs {
 			o := outs[i]
